@@ -117,7 +117,9 @@ def gen_c12(rng, n_scripts, per_script):
         lines = []
         for _ in range(per_script):
             r = rnd_record(rng)
-            mode = rng.below(10)
+            mode = rng.below(12)
+            if mode == 11:
+                mode = 10
             if mode < 3:
                 lines.append("enc " + record_text(r))
                 continue
@@ -134,12 +136,24 @@ def gen_c12(rng, n_scripts, per_script):
                 p = rng.below(len(bs))
                 v = rng.choice([bs[p] ^ (1 << rng.below(8)), 0, 255, (bs[p] + 1) % 256])
                 bs[p] = v
+            elif mode == 10:  # one byte of tag+body altered, checksum recomputed (non-canonical encodings)
+                p = rng.below(max(1, len(bs) - 8))
+                v = rng.choice([bs[p] ^ (1 << rng.below(8)), 0, 255, (bs[p] + 1) % 256, 2])
+                bs[p] = v
+                tb = bytes(bs[:-8])
+                bs = bytearray(tb + struct.pack(">Q", zlib.crc32(tb)))
             elif mode == 8:  # arbitrary bytes
                 bs = bytearray(rng.below(256) for _ in range(rng.below(60)))
             else:  # valid tag, arbitrary rest
                 bs = bytearray(struct.pack(">I", rng.below(7))) + bytearray(
                     rng.below(3) for _ in range(rng.below(60)))
-            lines.append("dec " + (bytes(bs).hex() if bs else "."))
+            if rng.chance(1, 4):
+                # the same decode through a reader that hands out at most k bytes per call
+                h = bytes(bs).hex() if bs else "."
+                lines.append("dec " + h)
+                lines.append(f"decr {rng.choice([1, 2, 3, 5, 7])} " + h)
+            else:
+                lines.append("dec " + (bytes(bs).hex() if bs else "."))
         scripts.append(lines)
     return scripts
 
@@ -189,6 +203,8 @@ class HistGen:
             mr = r.choice(["-", "-", 1, 2, 3, 5, 8])
             ms = r.choice(["-", "-", "-", 0, 64, 200, 1000])
             parts += [f"mr={mr}", f"ms={ms}"]
+            # read_buffer_size: the model has no such notion, recovery must not depend on it
+            parts += [f"rb={r.choice(['-', '-', 1, 2, 3, 5, 7, 16, 64, 4096])}"]
         if self.o["small_cache"]:
             ci = r.choice([0, 1, 2, 3, "-"])
             cc = r.choice([0, 1, 10, 400, "-"])
